@@ -121,6 +121,8 @@ def grammar_text(g, with_priorities=True):
     for t in sorted(g['terms']):
         pr = g['tprio'].get(t, 0) if with_priorities else 0
         lines.append('%s%s: "%s"' % (t, ('.%d' % pr) if pr else '', g['terms'][t]))
+    if g.get('ignore'):
+        lines.append('%ignore " "')
     return '\n'.join(lines) + '\n'
 
 
